@@ -262,13 +262,14 @@ func (fc *FnCtx) store(st *State, p Val, v Val) {
 	}
 	hs := fc.B.SortOf(p.PBase)
 	h := fc.heapOf(st, hs)
-	base := "(select " + h + " " + p.T + ")"
-	nv := fc.rebuild(base, p.PBase, p.PPath, v.T)
-	t := "(store " + h + " " + p.T + " " + nv + ")"
-	if len(t) > 300 {
-		t = fc.B.Define("H", "(Array Int "+hs+")", t)
+	var nv string
+	if len(p.PPath) == 0 {
+		nv = v.T
+	} else {
+		base := fc.B.Define("obj", hs, "(select "+h+" "+p.T+")")
+		nv = fc.rebuild(base, p.PBase, p.PPath, v.T)
 	}
-	st.heaps[hs] = t
+	st.heaps[hs] = fc.B.Define("H", "(Array Int "+hs+")", "(store "+h+" "+p.T+" "+nv+")")
 }
 
 func (fc *FnCtx) rebuild(cur string, ct types.Type, path []pathElem, v string) string {
@@ -366,6 +367,31 @@ func (fc *FnCtx) newFrame(fn *ssa.Function, depth int, cond string) *Frame {
 }
 
 func isBackEdge(from, to *ssa.BasicBlock) bool { return to.Dominates(from) }
+
+// onlyElemStores: the array is only written element-wise with constant indices and then sliced.
+func onlyElemStores(a *ssa.Alloc) bool {
+	for _, r := range *a.Referrers() {
+		switch u := r.(type) {
+		case *ssa.IndexAddr:
+			if _, ok := constInt(u.Index); !ok {
+				return false
+			}
+			for _, r2 := range *u.Referrers() {
+				if st, ok := r2.(*ssa.Store); !ok || st.Addr != u {
+					return false
+				}
+			}
+		case *ssa.Slice:
+			if u.Low != nil || u.High != nil {
+				return false
+			}
+		case *ssa.DebugRef:
+		default:
+			return false
+		}
+	}
+	return true
+}
 
 func rpo(fn *ssa.Function) []*ssa.BasicBlock {
 	seen := map[int]bool{}
@@ -681,6 +707,15 @@ func (fr *Frame) execInstr(b *ssa.BasicBlock, in ssa.Instruction, st *State, rea
 		}
 	case *ssa.Alloc:
 		elem := x.Type().Underlying().(*types.Pointer).Elem()
+		if arr, ok := elem.Underlying().(*types.Array); ok && (x.Comment == "varargs" || x.Comment == "slicelit") && onlyElemStores(x) {
+			// call-site argument arrays: kept out of the heap, elements tracked statically
+			va := &varArr{elem: arr.Elem(), vals: make([]Val, arr.Len())}
+			for i := range va.vals {
+				va.vals[i] = fc.mkVal(arr.Elem(), fc.zero(arr.Elem()))
+			}
+			fr.vals[x] = Val{S: "Int", T: "0", Typ: x.Type(), Fn: &FnVal{Special: "vararr"}, VA: va}
+			return
+		}
 		p := fc.alloc(st, elem, x.Name())
 		p.Typ = x.Type()
 		fc.store(st, p, fc.mkVal(elem, fc.zero(elem)))
@@ -786,6 +821,11 @@ func (fr *Frame) execInstr(b *ssa.BasicBlock, in ssa.Instruction, st *State, rea
 		fc.safety(reach, eq(m.T, "0"), "nil-map-write", in)
 	case *ssa.MakeInterface:
 		v := fr.get(x.X)
+		if isErrorType(x.Type()) && isSentinelErrType(x.X.Type()) {
+			v.Typ = x.Type()
+			fr.vals[x] = v
+			return
+		}
 		if isErrorType(x.Type()) {
 			// concrete error value: non-nil error with unknown root
 			e := fc.B.Fresh("errv", "Int")
@@ -818,6 +858,10 @@ func (fr *Frame) execInstr(b *ssa.BasicBlock, in ssa.Instruction, st *State, rea
 	case *ssa.Store:
 		p := fr.get(x.Addr)
 		v := fr.get(x.Val)
+		if p.VA != nil && p.Fn != nil && p.Fn.Special == "varelem" {
+			p.VA.vals[p.VAIdx] = v
+			return
+		}
 		if p.Fn != nil && strings.HasPrefix(p.Fn.Special, "global:") {
 			fc.unsupported("store to global %s", p.Fn.Special)
 			return
@@ -1225,6 +1269,15 @@ func (fr *Frame) indexAddr(x *ssa.IndexAddr, st *State, reach string) {
 	fc := fr.fc
 	base := fr.get(x.X)
 	idx := fr.get(x.Index)
+	if base.VA != nil {
+		k, ok := constInt(x.Index)
+		if !ok || int(k) >= len(base.VA.vals) {
+			fc.unsupported("non-constant index into call-site array")
+			k = 0
+		}
+		fr.vals[x] = Val{S: "Int", T: "0", Typ: x.Type(), Fn: &FnVal{Special: "varelem"}, VA: base.VA, VAIdx: int(k)}
+		return
+	}
 	switch bt := x.X.Type().Underlying().(type) {
 	case *types.Pointer: // pointer to array
 		arr := bt.Elem().Underlying().(*types.Array)
@@ -1317,6 +1370,33 @@ func (fr *Frame) lookup(x *ssa.Lookup, st *State, reach string) {
 func (fr *Frame) slice(x *ssa.Slice, st *State, reach string) {
 	fc := fr.fc
 	base := fr.get(x.X)
+	if base.VA != nil {
+		va := base.VA
+		if isByte(va.elem) {
+			parts := []string{}
+			for _, v := range va.vals {
+				parts = append(parts, "(str.from_code "+v.T+")")
+			}
+			t := "\"\""
+			if len(parts) == 1 {
+				t = parts[0]
+			} else if len(parts) > 1 {
+				t = "(str.++ " + strings.Join(parts, " ") + ")"
+			}
+			nv := fr.define(x, "(mkB false "+t+")")
+			fr.vals[x] = nv
+			return
+		}
+		es := fc.B.SortOf(va.elem)
+		arr := "((as const (Array Int " + es + ")) " + fc.zero(va.elem) + ")"
+		for i, v := range va.vals {
+			arr = "(store " + arr + " " + strconv.Itoa(i) + " " + v.T + ")"
+		}
+		nv := fr.define(x, fmt.Sprintf("(mkS false %d %s)", len(va.vals), arr))
+		nv.VA = va
+		fr.vals[x] = nv
+		return
+	}
 	// pointer to array: load it
 	if _, ok := x.X.Type().Underlying().(*types.Pointer); ok {
 		base = fc.load(st, base)
